@@ -275,4 +275,16 @@ theorem Built.ni {w : World} (h : Built w) : NI w := by
   have := (h.binv.pend e he).1
   rw [hn.1] at this; exact absurd this (by decide)
 
+/-- in every state reachable from an initial state (`InitOkG ∧ SideOk`, no notice pending for a process that is not
+    running) every pending cancellation notice of `cmb_condition_cancel` (an aRes event with a non-SUCCESS code) is
+    addressed to a process that is running: it is created only for a process on the condition's waiting list (which is
+    suspended, hence running), and the end of a process cancels all its pending events before its status changes -/
+theorem cancelled_notice_owner_reachable {w0 w : World} (hr : Reach w0 w) (hi : InitOkG w0) (hs : SideOk w0) (hn : NI w0) :
+    ∀ e ∈ w.ev.pending, e.item.a = aRes → e.item.c ≠ 0 → 1 ≤ e.item.b ∧ (w.proc (e.item.b - 1)).status = .running :=
+  fun e he ha hc => (NI.reach hr hn (hi.all hs)).1 e he ⟨ha, hc⟩
+
+theorem cancelled_notice_owner_built {w0 w : World} (hb : Built w0) (hsz : w0.procs.size < 2 ^ 31) (hr : Reach w0 w) :
+    ∀ e ∈ w.ev.pending, e.item.a = aRes → e.item.c ≠ 0 → 1 ≤ e.item.b ∧ (w.proc (e.item.b - 1)).status = .running :=
+  cancelled_notice_owner_reachable hr (hb.binv.initOk hsz).1 (hb.binv.initOk hsz).2 hb.ni
+
 end CimbaModel.Sim.S3
